@@ -37,8 +37,8 @@ def run(repo, rep, tier):
     grid_ok = refusal_grid(repo, rep)
     d1(repo, rep, grid_ok)
     d2(repo, rep)
-    d34(repo, rep)
-    cycle_roundtrip(repo, rep, tier)
+    cycle_ok = cycle_roundtrip(repo, rep, tier)
+    d34(repo, rep, cycle_ok)
     fam = [(MOD, "Epoch." + q) for q in ("_compute_jde", "get_date", "_check_values", "get_month", "is_leap", "is_julian", "julian", "leap")] + [("base", "iint")]
     effects.check_functions(repo, rep, fam)
     guards.check_functions(repo, rep, fam)
@@ -192,8 +192,10 @@ def cycle_roundtrip(repo, rep, tier):
             rep.violation("R-CYCLE", site, "anchors", "anchor dates: " + "; ".join(wrong), obligation=True)
         else:
             rep.ok("R-CYCLE", site + ":anchors", "-4712-01-01.5 -> 0, 1858-11-17.0 -> 2400000.5, 2000-01-01.5 -> 2451545", obligation=True)
+            return not probs
     except NotEvaluable as e:
         rep.inconcl("R-CYCLE", site, "anchors not executable: %s" % e)
+    return False
 
 
 class _Refused(Exception):
@@ -419,12 +421,16 @@ def d1_rest(repo, rep):
                 elif all(isinstance(x, (list, tuple)) and len(x) == 2 and all(isinstance(y, str) for y in x) for x in val):
                     found.append([x[0] for x in val])
                     found.append([x[1] for x in val])
-        if abbr in found and full in found:
+        def near(tab, ref):
+            """a table that is meant to be `ref` but is not: same names in another order, or all but one or two entries equal"""
+            return tab != ref and (sorted(tab) == sorted(ref) or sum(1 for a_, b_ in zip(tab, ref) if a_ == b_) >= 10)
+        wrong = [tab for tab in found if near(tab, abbr) or near(tab, full)]
+        if wrong:
+            rep.violation("R-TABLE-AUDIT", "Epoch." + q, "month-names", "a month name table differs from the English calendar names in order: %s" % (wrong[0],))
+        elif abbr in found and full in found:
             rep.ok("R-TABLE-AUDIT", "Epoch." + q, "month name tables (module level) == calendar.month_abbr / month_name")
-        elif found:
-            rep.violation("R-TABLE-AUDIT", "Epoch." + q, "month-names", "month name tables differ from the English calendar names in order")
         else:
-            rep.inconcl("R-TABLE-AUDIT", "Epoch." + q, "month name tables not found in a literal form")
+            rep.inconcl("R-TABLE-AUDIT", "Epoch." + q, "month name tables not (both) found in a literal form")
     # is_leap
     q = "Epoch.is_leap"
     rep.fn(MOD, q)
@@ -605,7 +611,25 @@ def gregorian_jdn(y, m, d):
     return d + (153 * mm + 2) // 5 + 365 * yy + yy // 4 - yy // 100 + yy // 400 - 32045
 
 
-def d34(repo, rep):
+class _Diagnosis:
+    """report proxy for the formula-shape rules of d34 once the conversions have been executed on whole calendar cycles (R-CYCLE discharged):
+    a mismatch with Meeus' way of writing the two algorithms is then a remark, not a finding"""
+
+    def __init__(self, rep):
+        self._rep = rep
+
+    def __getattr__(self, name):
+        return getattr(self._rep, name)
+
+    def violation(self, rule, site, key, msg, **kw):
+        kw.pop("construct", None)
+        self._rep.ok(rule, "%s:%s" % (site, key), "not in the published form (%s); the two conversions are exact inverses with days 1.0 apart on every executed "
+                                                  "civil day all the same (R-CYCLE)" % msg[:140], obligation=kw.get("obligation", False))
+
+
+def d34(repo, rep, cycle_ok=None):
+    if cycle_ok:
+        rep = _Diagnosis(rep)
     rep.rule("R-PAIR", "constants of the forward conversion pair with those of the inverse")
     rep.rule("R-DEP", "control dependence of a value on a test")
     q = "Epoch._compute_jde"
